@@ -23,6 +23,7 @@ RULE = (
 ASSUMPTIONS = [
     "tier 1 relies on ws2d being the PLS solver (C01)",
     "curves leaving +-32766 are outside the claim and only counted",
+    "a tier-2 mismatch with kappa_2(W + lam D'D) * 2^-53 >= 1e-7 and deviation <= 0.5 + 10*kappa*eps*max|z| is the recorded finding C03:ill-conditioned (float64 error of ws2d, C01:ill-conditioned), every other mismatch fails the run",
     "tier 2 skips cases where an IRLS sign decision y > z has |y - z| < 1e-9*max|y| (counted as irls_sign_degenerate)",
 ]
 HARD_TIMEOUT_S = {"quick": 900, "thorough": 3600}
@@ -46,6 +47,22 @@ def gen_case(rng, it):
         lam = float(10.0 ** rng.uniform(-3, 5))
     p = float(rng.choice([0.01, 0.5, 0.99, 0.9, 0.1])) if rng.random() < 0.4 else float(rng.uniform(0.001, 0.999))
     return yy, nodata, lam, p
+
+
+def classify_mismatch(band, z, ww, lam, name):
+    """A wrapper that already equals round(ws2d(y, lam, w)) (tier 1) but not the rounding of the independently solved
+    curve can only differ through the float64 error of ws2d itself.  For a system with kappa_2 * 2^-53 >= 1e-7 that is
+    the recorded finding C01:ill-conditioned seen through the int16 rounding (key C03:ill-conditioned), as long as the
+    deviation stays inside the forward-error bound 10 * kappa * eps * max|z|; anything else is a new violation."""
+    keps = W.cond2(len(z), ww, lam) * 2.0 ** -53
+    dev = float(np.max(np.abs(band.astype(float) - z)))
+    if keps >= 1e-7 and np.isfinite(dev) and dev <= 0.5 + 10 * keps * max(1.0, float(np.max(np.abs(z)))):
+        return "C03:ill-conditioned", keps
+    return "C03:" + name, keps
+
+
+# the recorded witness of C03:ill-conditioned: three valid cells followed by a 397-cell gap, lambda = 10**4.861
+WITNESS = {"n": 400, "head": [-795.0, -773.0, -756.0], "nodata": -32768.0, "lam": 72604.91266778413}
 
 
 def check_gu(R, yy, nodata, lam):
@@ -76,7 +93,8 @@ def check_gu(R, yy, nodata, lam):
     R.count("tier2_ties_tolerated", nties)
     R.note_max("max_solver_disagreement", float(np.max(np.abs(z2 - z1))))
     if not ok:
-        R.violation("C03:gu-dense", f"ws2dgu != rounded PLS curve (independent solve) at cell {i}: {int(band[i])} vs {z2[i]:.6f} (lam={lam:.5g}, delta={delta:.2g})", case)
+        key, keps = classify_mismatch(band, z2, w, lam, "gu-dense")
+        R.violation(key, f"ws2dgu != rounded PLS curve (independent solve) at cell {i}: {int(band[i])} vs {z2[i]:.6f} (lam={lam:.5g}, valid={int(w.sum())}/{w.size}, kappa*eps={keps:.3g})", case)
     if R.want_sample() and nontriv:
         R.sample({"variant": "ws2dgu", "y": yy[:16], "nodata": nodata, "lam": lam, "band": band[:16]})
 
@@ -114,7 +132,8 @@ def check_pgu(R, yy, nodata, lam, p):
     R.count("tier2_pgu")
     R.count("tier2_ties_tolerated", nties)
     if not ok:
-        R.violation("C03:pgu-dense", f"ws2dpgu != rounded expectile curve (independent solve) at cell {i}: {int(band[i])} vs {r2['z'][i]:.6f} (lam={lam:.5g}, p={p:.4g})", case)
+        key, keps = classify_mismatch(band, r2["z"], r2["ww"], lam, "pgu-dense")
+        R.violation(key, f"ws2dpgu != rounded expectile curve (independent solve) at cell {i}: {int(band[i])} vs {r2['z'][i]:.6f} (lam={lam:.5g}, p={p:.4g}, valid={int(w.sum())}/{w.size}, kappa*eps={keps:.3g})", case)
     if R.want_sample() and nontriv:
         R.sample({"variant": "ws2dpgu", "y": yy[:16], "nodata": nodata, "lam": lam, "p": p, "passes": r1["passes"], "band": band[:16]})
 
@@ -216,6 +235,11 @@ def run_shard(spec, R):
     rng = np.random.default_rng([spec["seed"], 3, {"gu": 1, "pgu": 2, "accessor": 3}[kind], spec["sub"]])
     if kind == "gu":
         S.warm(["ws2dgu"])
+        if spec["sub"] == 0:  # the recorded witness of the known finding is re-observed on every run
+            yw = np.full(WITNESS["n"], WITNESS["nodata"])
+            yw[:3] = WITNESS["head"]
+            check_gu(R, yw, WITNESS["nodata"], WITNESS["lam"])
+            R.count("known_finding_witness_runs")
         for it in range(spec["cases"]):
             if R.out_of_time():
                 R.count("stopped_on_budget")
